@@ -14,7 +14,7 @@ From DV Require Import Model.PyPrims Model.Tree Model.C08Model.
 From DV Require Import Proofs.C08Base Proofs.C08InPlace Proofs.C08Prune Proofs.C08Extract Proofs.C08Spec
      Proofs.C08Dist Proofs.C08Final Proofs.C08Thms.
 From DV Require Import Model.C08Spec2 Model.C08Loop Proofs.C08Order Proofs.C08More Proofs.C08Child Proofs.C08Lazy
-     Proofs.C08Machine Proofs.C08Link.
+     Proofs.C08Machine Proofs.C08Link Proofs.C08Variants.
 From DV Require Model.Heap Model.HeapOps Proofs.C03Base.
 Import ListNotations.
 Open Scope Z_scope.
@@ -304,6 +304,8 @@ Proof. exact ex_update_declined. Qed.
 Print Assumptions example_declined_with_update_bipartitions.
 
 (* 12b. where the library still departs from the property (witnesses replay on the implementation) *)
+(* the label wrappers in their form BEFORE notes/C08_fix_c.patch (string comparison); for the repaired
+   form see labels_case_agreement at the end *)
 Theorem labels_case_agreement_refuted :
   exists ns t, NoDup (ids t) /\ leaf_taxa_only t = true /\
     (forall n a, In n (leaves t) -> t_taxon n = Some a -> memz a (map fst ns) = true) /\
@@ -547,3 +549,82 @@ Theorem lazy_prune_taxa_first_loop :
     Some ([ires_tree (prune_phase1 lf intn taxa t) t], post_ids t).
 Proof. exact lazy_prune_taxa_loop. Qed.
 Print Assumptions lazy_prune_taxa_first_loop.
+
+(* ======================================================================================== *)
+(* probed variants (the check is green before and after the two repairs)                    *)
+(* ======================================================================================== *)
+
+(* 22. notes/C08_fix_c.patch: extract_tree_with(out)_taxa_labels resolve their labels through the
+       namespace (get_taxa, the namespace's case rule).  In that form extraction agrees with the
+       in-place label methods for every label list, whatever its case: the same hypothesis
+       ("the labels name the taxa under lab_match cs") now serves all four label variants.
+       (labels_case_agreement_refuted above is about the form before the repair.) *)
+Theorem labels_case_agreement :
+  forall (ns : nspace) (cs : bool) (lkeep lpruned keep pruned : list Z) (sup : bool) (t : tree)
+         (rooted : option bool) (r : tree),
+    NoDup (ids t) -> leaf_taxa_only t = true ->
+    (forall n a, In n (leaves t) -> t_taxon n = Some a -> memz a (map fst ns) = true) ->
+    (forall n a, In n (leaves t) -> t_taxon n = Some a -> memz a pruned = negb (memz a keep)) ->
+    (forall n a, In n (leaves t) -> t_taxon n = Some a ->
+       ((exists m lb, In m ns /\ fst m = a /\ In lb lkeep /\ lab_match cs (snd m) lb = true) <-> In a keep)) ->
+    (forall n a, In n (leaves t) -> t_taxon n = Some a ->
+       ((exists m lb, In m ns /\ fst m = a /\ In lb lpruned /\ lab_match cs (snd m) lb = true) <-> In a pruned)) ->
+    restrict sup (keep_taxa keep) t = Some r ->
+    prune_taxa_with_labels ns cs lpruned false sup true false (t, rooted) = IOk ([], r, rooted) /\
+    retain_taxa_with_labels ns cs lkeep false sup (t, rooted) = IOk ([], r, rooted) /\
+    extract_tree_with_taxa_labels_ns ns cs lkeep sup t = XOk r /\
+    extract_tree_without_taxa_labels_ns ns cs lpruned sup t = XOk r.
+Proof. exact labels_four_way. Qed.
+Print Assumptions labels_case_agreement.
+
+Theorem extract_labels_ns_is_extract :
+  forall (ns : nspace) (cs : bool) (labels keep : list Z) (sup : bool) (t : tree),
+    NoDup (ids t) -> leaf_taxa_only t = true ->
+    (forall n a, In n (leaves t) -> t_taxon n = Some a ->
+       ((exists m lb, In m ns /\ fst m = a /\ In lb labels /\ lab_match cs (snd m) lb = true) <-> In a keep)) ->
+    extract_tree_with_taxa_labels_ns ns cs labels sup t = extract_tree_with_taxa keep sup t.
+Proof. exact extract_with_labels_ns_spec. Qed.
+Print Assumptions extract_labels_ns_is_extract.
+
+Theorem extract_without_labels_ns_is_extract :
+  forall (ns : nspace) (cs : bool) (labels pruned : list Z) (sup : bool) (t : tree),
+    NoDup (ids t) -> leaf_taxa_only t = true ->
+    (forall n a, In n (leaves t) -> t_taxon n = Some a ->
+       ((exists m lb, In m ns /\ fst m = a /\ In lb labels /\ lab_match cs (snd m) lb = true) <-> In a pruned)) ->
+    extract_tree_without_taxa_labels_ns ns cs labels sup t = extract_tree_without_taxa pruned sup t.
+Proof. exact extract_without_labels_ns_spec. Qed.
+Print Assumptions extract_without_labels_ns_is_extract.
+
+Theorem example_labels_case_agreement :
+  exists r, retain_taxa_with_labels [(0, 0); (1, 2); (2, 4)] false [1; 4] false true (ex_tree, Some true) = IOk ([], r, Some true) /\
+            extract_tree_with_taxa_labels_ns [(0, 0); (1, 2); (2, 4)] false [1; 4] true ex_tree = XOk r.
+Proof. exact ex_labels_case_agree. Qed.
+Print Assumptions example_labels_case_agreement.
+
+(* 23. pruning that reaches the seed: the exception class e is what the harness probes
+       (AttributeError before notes/C03_fix_1.patch, SeedNodeDeletionException after); place and tree
+       left behind are the same *)
+Theorem prune_is_restrict_either_exception :
+  forall (e : xerr) (taxa : list Z) (upd_bip sup : bool) (t : tree) (rooted : option bool),
+    NoDup (ids t) -> leaf_taxa_only t = true ->
+    seed_err e (prune_taxa taxa upd_bip sup true false (t, rooted)) =
+    match restrict sup (drop_taxa taxa) t with
+    | Some r => IOk ([], fst (if upd_bip then encode_effect sup rooted r else (r, rooted)),
+                         snd (if upd_bip then encode_effect sup rooted r else (r, rooted)))
+    | None => IErr e (set_kids t [])
+    end.
+Proof. exact (fun e taxa u s => prune_taxa_variant e taxa u s true false). Qed.
+Print Assumptions prune_is_restrict_either_exception.
+
+Theorem prune_leaves_without_taxa_either_exception :
+  forall (e : xerr) (upd_bip sup : bool) (t : tree) (rooted : option bool),
+    NoDup (ids t) ->
+    match restrictG sup has_taxon np_true has_taxon t with
+    | Some r => exists rem,
+        seed_err e (prune_leaves_without_taxa true upd_bip sup (t, rooted)) =
+        IOk (rem, fst (if upd_bip then encode_effect sup rooted r else (r, rooted)),
+                  snd (if upd_bip then encode_effect sup rooted r else (r, rooted)))
+    | None => seed_err e (prune_leaves_without_taxa true upd_bip sup (t, rooted)) = IErr e (set_kids t [])
+    end.
+Proof. exact plwt_variant. Qed.
+Print Assumptions prune_leaves_without_taxa_either_exception.
